@@ -266,7 +266,7 @@ func replaySpace(c *vlib.Ctx, sp *space, envs []*env, st *stats, seed int64) {
 			case <-tk.C:
 				now := time.Now().UnixNano()
 				for i := range fl {
-					if s := fl[i].since.Load(); s != 0 && now-s > int64(20*time.Second) {
+					if s := fl[i].since.Load(); s != 0 && now-s > int64(20*time.Second) && stillHangs(func() bool { return fl[i].since.Load() != s }) {
 						d, _ := fl[i].desc.Load().(verifyCase)
 						c.Violation("verify-hang", "SpendPolicy.Verify did not return within 20 s", d)
 						c.Finish()
